@@ -93,7 +93,7 @@ def snapshots(commands, global_decls=False):
 # ------------------------------------------------------------------------------------------- generator
 DEFAULTS = dict(ncmds=(8, 26), p_push=0.12, p_pop=0.10, p_check=0.22, named=0.0, nested_named=0.0, defines=0.0,
                 queries=(), q_prob=0.7, unsat_bias=0.3, all_named=False, max_live=14, max_depth=3, big=0.15, max_push=4,
-                reassert=0.08, value_terms=True, final_check=True, clausal=0.35)
+                reassert=0.08, value_terms=True, final_check=True, clausal=0.35, bool_args=True, allow_let=True)
 
 
 class HistGen:
@@ -102,8 +102,9 @@ class HistGen:
         self.prof = prof
         self.o = dict(DEFAULTS)
         self.o.update(kw)
-        self.sig = gen.make_signature(rng, prof)
+        self.sig = gen.make_signature(rng, prof, self.o['bool_args'])
         self.tg = gen.TermGen(rng, prof, self.sig, big_consts=self.o['big'], max_depth=self.o['max_depth'])
+        self.tg.allow_let = self.o['allow_let']
         self.cmds = []
         self.levels = [[]]        # live assertion T's per level
         self.popped = []          # assertions (T) that were popped, candidates for re-assertion
@@ -254,7 +255,10 @@ class HistGen:
     def emit_queries(self):
         r = self.rng
         for q in self.o['queries']:
-            if r.random() > self.o['q_prob']:
+            prob = self.o['q_prob']
+            if isinstance(q, (tuple, list)):
+                q, prob = q
+            if r.random() > prob:
                 continue
             if q == 'get-value':
                 terms = []
@@ -268,7 +272,7 @@ class HistGen:
                 names = [n for l in self.live_names for n in l]
                 if len(names) < 2:
                     continue
-                k = 2 if r.random() < 0.6 else min(len(names), r.randint(3, 4))
+                k = 2 if r.random() < self.o.get('itp_binary', 0.6) else min(len(names), r.randint(3, 4))
                 order = names[:]
                 if r.random() < 0.7:
                     r.shuffle(order)
